@@ -28,13 +28,12 @@ CHECKS = {
             "sum, entries*mean = sum w*q, varianceTimesEntries = sum w*q^2 - entries*mean^2), the extrema "
             "of Minimize / Maximize over any quantities incl. +-inf and NaN (not above/below any non-NaN "
             "quantity, one of the quantities, NaN only if nothing else was filled), the value -> weight "
-            "map of a Bag of numbers (NaN under 'nan'), every sparse child (SparselyBin index, Categorize "
+            "map of a Bag of any range (strings, numbers with NaN under 'nan', vectors), every sparse child (SparselyBin index, Categorize "
             "category) = the template filled with exactly the rows routed to its key (every instance), order "
             "independence of fill, the weight gate and its meaning; the independent exact-rational "
             "reference semantics (harness/refsem.py) is evaluated against the implementation on "
             "every exact program; " + TIE,
-            "the value map of string- and vector-valued Bags is decided by the reference semantics (a "
-            "Python transcription of the specification), not proved; the closed forms are stated for "
+            "the closed forms are stated for "
             "finite data and positive weights (extrema and Bag: any quantities); exact laws decided on "
             "exact-safe programs only",
             "section 6 C02"),
@@ -48,7 +47,8 @@ CHECKS = {
             "sub-column of the rows routed to it) is the row semantics, and the batch formulas of "
             "Average._numpy / Deviate._numpy (weighted mean of the selection merged by the "
             "weighted-average and parallel-axis formulas) give exactly the state the row fills reach "
-            "(exact instance); " + TIE + ": a vectorised instance (dict "
+            "(exact instance); a Count handed a sub-column holds its entries plus the weights > 0 of that "
+            "sub-column (the counting fast paths); " + TIE + ": a vectorised instance (dict "
             "of arrays or record array) and a row-by-row instance of the same tree are driven through "
             "the same batches (0-10 rows over the tree's critical values, weight 1 / scalar / "
             "non-negative array with zeros) and compared with each other and with the model after "
@@ -218,8 +218,8 @@ CHECKS = {
             "rejection of ill-typed field VALUES other than entries and of malformed list elements is "
             "decided by the correspondence + oracle on generated mutants (incl. numeric-looking strings "
             "such as '2.5', 'NaN', '-Infinity'); the reader model has these branches but no closed-form "
-            "theorem is stated for them; Categorize is not covered by the one-child-per-element theorem "
-            "(distinctness of Python dict keys is not modelled)",
+            "theorem is stated for them; for Categorize the one-bin-per-key theorem assumes distinct keys "
+            "of the bins object (a Python dict)",
             "section 6 C15"),
     "C16": ("proof",
             "Coq theorem about the guard as coded (identity list threaded through a pre-order walk): "
